@@ -27,13 +27,14 @@ Hash(b, t, o) == Sum(b) + 3 * Sum(t) + 7 * Sum(o) + Len(b) + 5 * Len(t) + 11 * L
 RotAct(b, t, o, n) == Acts[((Hash(b, t, o) \div (2 * n)) % 3) + 1]
 Rot(b, t, o, mt, opts) == LET h == Hash(b, t, o) IN
     Case(b, t, o, Class(mt, opts[(h % Len(opts)) + 1], ((h \div Len(opts)) % 2) = 1, RotAct(b, t, o, Len(opts))))
-Cases ==
-         {Rot(b, t, o, "merge3", Opts3) : b \in Texts(MaxLen), t \in Texts(MaxLen), o \in Texts(MaxLen)}
-    \cup {Case(b, t, o, Class("merge3", Opts3[k], cp, RotAct(b, t, o, 3))) :
-              b \in Texts(FullLen), t \in Texts(FullLen), o \in Texts(FullLen), k \in 1..3, cp \in BOOLEAN}
-    \cup UNION {{Case(b, t, o, Class(mt, OptsW[k], ((Hash(b, t, o) \div 2) % 2) = 1, RotAct(b, t, o, 2))) :
-                   b \in Texts(WeaveLen), t \in Texts(WeaveLen), o \in Texts(WeaveLen), k \in 1..2}
-               : mt \in {"weave", "lca"}}
+\* the case table in three parts (TLC's union of large sets of records is slow; the harness concatenates the parts)
+CasesRot  == {Rot(b, t, o, "merge3", Opts3) : b \in Texts(MaxLen), t \in Texts(MaxLen), o \in Texts(MaxLen)}
+CasesFull == {Case(b, t, o, Class("merge3", Opts3[k], cp, RotAct(b, t, o, 3))) :
+                  b \in Texts(FullLen), t \in Texts(FullLen), o \in Texts(FullLen), k \in 1..3, cp \in BOOLEAN}
+CasesWeave == UNION {{Case(b, t, o, Class(mt, OptsW[k], ((Hash(b, t, o) \div 2) % 2) = 1, RotAct(b, t, o, 2))) :
+                        b \in Texts(WeaveLen), t \in Texts(WeaveLen), o \in Texts(WeaveLen), k \in 1..2}
+                    : mt \in {"weave", "lca"}}
+Parts == <<CasesRot, CasesFull, CasesWeave>>
 
 VARIABLE c
 Init == c \in Classes /\ st = S0
@@ -60,7 +61,7 @@ WitnessCleanMerge == ~(st.phase = "merged" /\ ~st.rec /\ c.mt = "merge3" /\ c.cp
 WitnessWeave      == ~(st.phase = "resolved" /\ c.mt = "lca" /\ c.act = "take_this")
 
 \* every exported case belongs to a class the machine was explored for
-ASSUME "VF_OUT" \in DOMAIN IOEnv => {ClassOf(x) : x \in Cases} \subseteq Classes
-Export == JsonSerialize(IOEnv.VF_OUT, SetToSeq(Cases))
+ASSUME "VF_OUT" \in DOMAIN IOEnv => \A p \in 1..3 : {ClassOf(x) : x \in Parts[p]} \subseteq Classes
+Export == JsonSerialize(IOEnv.VF_OUT, [p \in 1..3 |-> SetToSeq(Parts[p])])
 ASSUME IF "VF_OUT" \in DOMAIN IOEnv THEN Export ELSE TRUE
 =============================================================================
